@@ -193,7 +193,7 @@ fn desc(p: &Project) -> VbaProjectDesc {
                     };
                     source[0] = hi;
                 }
-                VbaModule { name: m.name.clone(), stream_name: m.name.clone(), source, text_offset: m.text_offset, class: m.flags & 1 != 0, read_only: m.flags & 2 != 0, private: m.flags & 4 != 0, tok: m.tok }
+                VbaModule { name: m.name.clone(), stream_name: if m.flags & 16 != 0 { format!("{}_s", m.name) } else { m.name.clone() }, source, text_offset: m.text_offset, class: m.flags & 1 != 0, read_only: m.flags & 2 != 0, private: m.flags & 4 != 0, tok: m.tok }
             })
             .collect(),
         dir_tok: p.dir_tok,
@@ -305,7 +305,7 @@ fn run(ctx: &mut Ctx) {
     ctx.run_fast("container", n, || (source_strategy(), tok_strategy()).prop_map(|(src, tok)| Container { src, tok }), oracle_container);
     let n = ctx.n(600, 15_000);
     ctx.run("project", n, project_strategy, oracle_project);
-    ctx.assumptions.push("module and stream names and module text use ASCII plus characters whose code-page byte is the same in every table version (Latin-1 upper half / Cyrillic / half-width katakana); stream names equal module names".into());
+    ctx.assumptions.push("module and stream names and module text use ASCII plus characters whose code-page byte is the same in every table version (Latin-1 upper half / Cyrillic / half-width katakana); stream names equal module names or carry a suffix".into());
 }
 
 fn replay(sub: &str, case: &serde_json::Value) -> Option<Report> {
